@@ -77,7 +77,7 @@ func GenPinned() error {
 func runC17(c *vlib.Check) {
 	c.Rule = "the whole registry, exhaustively: every 24-bit tag number is probed for a name; every registered tag, every value of every enumeration and every flag of every bit mask is compared with " +
 		"pinned/registry.json in both directions and round-tripped number->name->number and name->number->name through TagString, EnumName/EnumByName, AppendBitmaskString/BitmaskByStr and one-item XML, JSON and text documents; " +
-		"plus unregistered numbers and names per scope; registration histories: after ttlv.RegisterEnum of one vendor value on each enumeration in turn (and RegisterTag of one tag) every pinned name and number still resolves both ways and the registry is the pinned one plus exactly the extensions. distinct = distinct (scope, name, number) triples"
+		"plus unregistered numbers and names per scope; every named value is also read into one reused ttlv.Value per text format, right after an item of another enumeration; registration histories: after ttlv.RegisterEnum of one vendor value on each enumeration in turn (and RegisterTag of one tag) every pinned name and number still resolves both ways and the registry is the pinned one plus exactly the extensions. distinct = distinct (scope, name, number) triples"
 	c.Assumptions = []string{"pinned/registry.json was generated from the pinned commit and cross-checked against every element and enumeration name of the 419 OASIS vector files and against the specification's tables"}
 	pin, err := LoadPinnedRegistry()
 	if err != nil {
@@ -231,6 +231,44 @@ func runC17(c *vlib.Check) {
 		}
 		if got, err := ttlv.EnumByName(tag, "NoSuchValueName"); err == nil {
 			v("enum-unknown-name-accepted", "%s: unknown value name resolves to 0x%08X", ename, got)
+		}
+	}
+	// --- decode-target history: one ttlv.Value per text format receives every named value in turn, each time right after an
+	// item of another enumeration (Object Type = SymmetricKey): what the target held before must not change how a name is read
+	{
+		var enames []string
+		for n := range pin.Enums {
+			enames = append(enames, n)
+		}
+		sort.Strings(enames)
+		otTag := pin.Tags["ObjectType"]
+		otItem := ttlv.Value{Tag: otTag, Value: ttlv.Enum(pin.Enums["ObjectType"]["SymmetricKey"])}
+		for _, enc := range []struct {
+			n string
+			m func(any) []byte
+			u func([]byte, any) error
+		}{{"xml", ttlv.MarshalXML, ttlv.UnmarshalXML}, {"json", ttlv.MarshalJSON, ttlv.UnmarshalJSON}} {
+			var reused ttlv.Value
+			otDoc := enc.m(otItem)
+			for _, ename := range enames {
+				tag := pin.Tags[ename]
+				var vns []string
+				for vn := range pin.Enums[ename] {
+					vns = append(vns, vn)
+				}
+				sort.Strings(vns)
+				for _, vn := range vns {
+					num := pin.Enums[ename][vn]
+					c.Eval([]byte(fmt.Sprint("enum-reused-target", enc.n, ename, vn)), true)
+					doc := enc.m(ttlv.Value{Tag: tag, Value: ttlv.Enum(num)})
+					if pv, _ := vlib.Catch(func() { err = enc.u(otDoc, &reused) }); pv != nil || err != nil || reused.Tag != otTag || reused.Value != otItem.Value {
+						v("enum-reused-target:"+enc.n, "a ttlv.Value that last held %s reads the ObjectType item %s as tag 0x%06X value %v (err %v, panic %v)", ename, otDoc, reused.Tag, reused.Value, err, pv)
+					}
+					if pv, _ := vlib.Catch(func() { err = enc.u(doc, &reused) }); pv != nil || err != nil || reused.Tag != tag || reused.Value != ttlv.Enum(num) {
+						v("enum-reused-target:"+enc.n, "a ttlv.Value that last held an ObjectType item reads %s value %s (%s) as tag 0x%06X value %v (err %v, panic %v)", ename, vn, doc, reused.Tag, reused.Value, err, pv)
+					}
+				}
+			}
 		}
 	}
 	for ename := range live.Enums {
